@@ -168,6 +168,35 @@ type obResult struct {
 // in a different order)
 var splitFirst = map[string]bool{}
 
+// noRetry: obligations expected to fail (open known findings): no further stages.
+var noRetry = map[string]bool{}
+
+// retryBudget bounds the number of obligations that go through the later
+// stages and still fail: once a tree is clearly broken, further failures are
+// reported after the first stage (keeps a failing check fast).
+type budget struct {
+	mu   sync.Mutex
+	left int
+}
+
+func (b *budget) take() bool {
+	b.mu.Lock()
+	defer b.mu.Unlock()
+	if b.left <= 0 {
+		return false
+	}
+	b.left--
+	return true
+}
+
+func (b *budget) giveBack() {
+	b.mu.Lock()
+	b.left++
+	b.mu.Unlock()
+}
+
+var retryBudget = &budget{left: 8}
+
 func solveAll(dir string, vcs []*VC, timeoutS int, all bool, workers int) []*obResult {
 	var jobs []job
 	for _, vc := range vcs {
@@ -199,7 +228,7 @@ func solveAll(dir string, vcs []*VC, timeoutS int, all bool, workers int) []*obR
 			} else {
 				r = solve(dir, fmt.Sprintf("q%04d", k), q, to, al)
 			}
-			if r.Status != "unsat" && r.Status != "sat" && it.Class != "canary" {
+			if r.Status != "unsat" && r.Status != "sat" && it.Class != "canary" && !noRetry[it.Name] && retryBudget.take() {
 				// second stage: other solver configurations
 				to2 := to
 				if to2 < 30 {
@@ -213,6 +242,7 @@ func solveAll(dir string, vcs []*VC, timeoutS int, all bool, workers int) []*obR
 				}(); r2.Status == "unsat" {
 					r2.Time += r.Time
 					r = r2
+					retryBudget.giveBack()
 				} else if sv := j.vc.splitVars; len(sv) > 0 {
 					// third stage: case split over the "this call is executed"
 					// conditions named by the contract's bindings; the cubes
@@ -265,6 +295,7 @@ func solveAll(dir string, vcs []*VC, timeoutS int, all bool, workers int) []*obR
 						who = c.who
 					}
 					if allUnsat {
+						retryBudget.giveBack()
 						r = solveResult{Status: "unsat", Solver: fmt.Sprintf("case-split(%d cubes over call bindings)/%s", n, who), Time: r.Time + tmax}
 					} else if splitFirst[it.Name] {
 						r = solve(dir, fmt.Sprintf("q%04d", k), q, to2, al)
